@@ -458,6 +458,35 @@ example : (mdStep { bs := 2, f := fun s b => some (List.zipWith (· + ·) s b), 
     [0, 0] (.write [1, 2, 3, 4, 5])).1 = [4, 11] := by
   simp [mdStep, chunks, absorb]
 
+/-! ### koalabear/vortex sponge `HashPoseidon2`: the documented function is a function of the ZERO-PADDED input -/
+
+/-- the padded input is a whole number of rate blocks -/
+theorem C14_vx_pad_length (x : List Nat) : (vxPad x).length % 16 = 0 := by
+  simp only [vxPad, List.length_append, List.length_replicate]; omega
+
+/-- padding a padded input adds nothing -/
+theorem C14_vx_pad_idem (x : List Nat) : vxPad (vxPad x) = vxPad x := by
+  have h : (16 - (vxPad x).length % 16) % 16 = 0 := by rw [C14_vx_pad_length]
+  have e : vxPad (vxPad x) = vxPad x ++ List.replicate ((16 - (vxPad x).length % 16) % 16) 0 := rfl
+  rw [e, h]; simp
+
+/-- "The input is zero-padded": an input and its zero-padding to the next multiple of the rate have the same digest -/
+theorem C14_vx_hash_zero_padded (C : CInst) (x : List Nat) : vxHash C (vxPad x) = vxHash C x := by
+  unfold vxHash; rw [C14_vx_pad_idem]
+
+/-- the same, spelled out for a final partial block: `k = 16 - len(x) % 16` explicit zeros change nothing -/
+theorem C14_vx_hash_append_zeros (C : CInst) (x : List Nat) (h : x.length % 16 ≠ 0) :
+    vxHash C (x ++ List.replicate (16 - x.length % 16) 0) = vxHash C x := by
+  have hk : (16 - x.length % 16) % 16 = 16 - x.length % 16 := by omega
+  have : x ++ List.replicate (16 - x.length % 16) 0 = vxPad x := by simp only [vxPad, hk]
+  rw [this, C14_vx_hash_zero_padded]
+
+/-- a whole number of blocks is not padded -/
+theorem C14_vx_pad_full (x : List Nat) (h : x.length % 16 = 0) : vxPad x = x := by
+  simp [vxPad, h]
+
+example : vxPad [1, 2, 3] = [1, 2, 3, 0, 0, 0, 0, 0, 0, 0, 0, 0, 0, 0, 0, 0] := by decide
+
 end GV.Poseidon2
 
 /-! ## Part 3: ring-SIS — limb decomposition -/
